@@ -131,6 +131,56 @@ fn main() {
             let _ = bytes_input;
             writeln!(registry, "        {mac},").unwrap();
         }
+        // the generated DefaultBuilder (the most common configuration): its
+        // match arms and stack handling are generated code too
+        if !glr && lexer == "default" && b("default_builder", false) {
+            let modname = format!("{id}_def");
+            let dir = out_dir.join(&modname);
+            let _ = std::fs::remove_dir_all(&dir);
+            std::fs::create_dir_all(&dir).unwrap();
+            let gpath = dir.join(format!("{stem}.rustemo"));
+            std::fs::write(&gpath, &text).unwrap();
+            let s = Settings::new()
+                .root_dir(dir.clone())
+                .out_dir_root(dir.clone())
+                .out_dir_actions_root(dir.clone())
+                .force(true)
+                .builder_type(BuilderType::Default)
+                .generator_table_type(GeneratorTableType::Functions)
+                .prefer_shifts(b("prefer_shifts", false))
+                .partial_parse(b("partial", false))
+                .fancy_regex(b("fancy", false))
+                .lexical_disamb_most_specific(b("most_specific", true))
+                .lexical_disamb_longest_match(b("longest_match", true));
+            if let Err(err) = s.process_grammar(&gpath) {
+                panic!("psim corpus entry {id} (default builder) does not compile with /repo's compiler: {err}");
+            }
+            let gen_path = dir.join(format!("{stem}.rs"));
+            let act_path = dir.join(format!("{stem}_actions.rs"));
+            let gen = std::fs::read_to_string(&gen_path).expect("generated parser");
+            let file = syn::parse_file(&gen).expect("generated parser parses");
+            let mut kinds: Vec<String> = vec![];
+            let mut def_name = String::new();
+            for item in &file.items {
+                match item {
+                    syn::Item::Enum(en) if en.ident == "TokenKind" => kinds = en.variants.iter().map(|v| v.ident.to_string()).collect(),
+                    syn::Item::Static(st) if st.ident == "PARSER_DEFINITION" => {
+                        if let syn::Type::Path(p) = &*st.ty {
+                            def_name = p.path.segments.last().unwrap().ident.to_string();
+                        }
+                    }
+                    _ => {}
+                }
+            }
+            writeln!(code, "pub mod {modname} {{\n    #![allow(warnings, clippy::all)]\n    pub mod {stem} {{\n        include!({:?});", gen_path.display().to_string()).unwrap();
+            writeln!(code, "        pub const ALL_TOKEN_KINDS: &[TokenKind] = &[{}];", kinds.iter().map(|k| format!("TokenKind::{k}")).collect::<Vec<_>>().join(", ")).unwrap();
+            writeln!(code, "        pub const TOKEN_KIND_NAMES: &[&str] = &[{}];", kinds.iter().map(|k| format!("{k:?}")).collect::<Vec<_>>().join(", ")).unwrap();
+            writeln!(code, "        pub type Def = {def_name};\n    }}").unwrap();
+            writeln!(code, "    pub mod {stem}_actions {{\n        include!({:?});\n    }}\n    pub use self::{stem}::*;\n}}", act_path.display().to_string()).unwrap();
+            let partial = b("partial", false);
+            let skip_ws = !has_layout;
+            writeln!(registry, "        lr_def_case!({modname}, {id:?}, {partial}, {has_layout}, {skip_ws}),").unwrap();
+        }
     }
     // ---- seeded generated grammars with sentences derived by construction ----
     let mut gen_entries: Vec<Value> = vec![];
